@@ -2,8 +2,17 @@
 import json, os
 V = os.path.dirname(os.path.dirname(os.path.abspath(__file__)))
 ALL = ['C%02d' % i for i in range(1, 21)]
+ALG_NOTE = 'Trusted: BLST curve/pairing/hash-to-curve as the algebraic model listed in evidence (group law on exact polynomial discrete logs, non-degenerate pairing that ignores cofactor torsion, hash discrete logs as formal indeterminates, collision-resistant stream hashes), the C05 contract for point (de)serialisation, clang -O0 IR for the gcc build; counterexamples are replayed natively. Cryptographic hardness is not claimed.'
 TECH = 'bounded symbolic execution of the real go/ssa (and clang LLVM-IR) of /repo in our own executor; every assertion decided by z3 over all inputs within the stated bounds; counterexamples replayed natively'
 CHECKS = {
+ 'C01': dict(design='6.1', text='Bounded symbolic model checking of Sign/Verify through cgo into the LLVM IR of bls_core.c / bls12381_utils.c with an algebraic group model at the BLST boundary: for a symbolic key, symbolic messages and every candidate a*H(m)+b*g1 (+cofactor torsion), raw strings and other lengths, z3 decides that Verify accepts exactly the group element sk*H(m) in G1, that Sign output verifies, and that other messages, keys, tags, the identity signature/key and bad hashers give the documented results.',
+             note=ALG_NOTE),
+ 'C04': dict(design='6.4', text='Bounded symbolic model checking of the aggregation functions (Go + C sum loops) in the algebraic model: pk(sum sk) = sum pk, aggregate of signatures = signature by the aggregated key (byte-equal), removal, order and nesting independence, exact identity cases (the solver chooses keys summing to zero), and the documented errors.',
+             note=ALG_NOTE + ' Multisets of at most 3 (quick) / 4 (thorough) keys.'),
+ 'C16': dict(design='6.16', text='Bounded symbolic model checking of BLSGeneratePOP / BLSVerifyPOP and of the KMAC key strings for every application tag of the bounded lengths with symbolic contents: a PoP verifies under its key only, never under the identity key; a signature of the public-key bytes under any tag is not a PoP and vice versa (the absorbed KMAC prefixes differ for all tags).',
+             note=ALG_NOTE + ' The step from different KMAC prefixes to unrelated hash outputs is the random-oracle assumption.'),
+ 'C17': dict(design='6.17', text='Bounded symbolic model checking of SPOCKProve / SPOCKVerify / SPOCKVerifyAgainstData and bls_spock_verify in the algebraic model: verdict = (both proofs in G1) and c1*sk2 = c2*sk1 for all proofs c_i*g1 (+torsion), symmetry, honest proofs, different data, other key, identity keys, lengths, raw strings, non-BLS keys.',
+             note=ALG_NOTE),
  'C05': dict(design='6.5', text='Bounded symbolic model checking of the BLS decoders through the cgo boundary: the Go wrappers (go/ssa) and the repository C glue (clang LLVM-IR: E1/E2/Fp/Fp2/Fr read and write) are executed on fully symbolic byte strings of the exact lengths and on every other length in the bound; z3 decides that acceptance implies re-encoding to exactly the input, that the accepted private scalars are exactly [1, r-1] (schoolbook reference), the rejection class, and the identity flag.',
              note='Trusted: BLST field primitives as contracts (exact add/sub/neg/compare; uninterpreted Montgomery product, square root, sign with field axioms), subgroup check as an uninterpreted predicate, clang -O0 IR standing for the gcc build (counterexamples are replayed on the real build). ECDSA decoders and the G2 coefficient order versus the cited format are not covered yet.'),
  'C07': dict(design='6.7', text='Relational bounded symbolic model checking of one Feldman-VSS-Qual dealer instance run as a product of two honest participants (real go/ssa, curve operations uninterpreted): for every combination of a Byzantine dealer vector kind, per-participant share kinds, delivery orders and complaint answers from a message grammar, z3 decides that both participants return the same verdict class, the same group key and public-share vector, and that no honest participant is flagged or disqualified.',
